@@ -83,7 +83,25 @@ def universe(rng, sysr):
             vs.append([ver, attrs, deps])
         pk.append([n] + vs)
     roots = []
-    for _ in range(rng.randrange(1, 4)):
+    if rng.random() < 0.6:
+        # several versions of ONE package resolved one after the other on the same resolver, with a
+        # dependency cycle leading back to that package (resolver-level caches must not leak between roots)
+        cand = [p for p in pk if len(p) > 2]
+        if cand:
+            P = rng.choice(cand)
+            others = [q for q in pk if q is not P]
+            if others:
+                Q = rng.choice(others)
+                wide = [b"*", b"[0.9.0,)", b">=0.9"][sysr]
+                for ve in Q[1:]:
+                    if not any(d[1] == P[0] for d in ve[2]):
+                        ve[2].append([[], P[0], wide])
+                for ve in P[1:]:
+                    if not any(d[1] == Q[0] for d in ve[2]):
+                        ve[2].append([[], Q[0], wide])
+            for ve in P[1:4]:
+                roots.append([P[0], ve[0]])
+    for _ in range(rng.randrange(1, 3)):
         p = rng.choice(pk)
         roots.append([p[0], rng.choice(p[1:])[0]])
     return [sysr, pk, roots, [rng.randrange(1 << 30) for _ in range(24)], 16]
